@@ -276,3 +276,214 @@ theorem batchLoop_spec (M : List Nat) (userOff : Option Int) (T bs0 : Int)
         simp [Int.add_assoc]
 
 end Gorm
+
+namespace Gorm
+
+/-! ### the preamble + loop = Find's window, for a chain without Or / non-monotone order -/
+
+theorem totalSize_pos_limit (lim : Option Limit) (h : 0 < totalSizeOf lim) :
+    effLimitOf lim = some (totalSizeOf lim) := by
+  unfold totalSizeOf at *
+  cases lim with
+  | none => simp at h
+  | some l =>
+    cases hl : l.limit with
+    | none => simp [hl] at h
+    | some n =>
+      simp [hl] at h ⊢
+      simp [effLimitOf, Limit.effLimit, hl]; omega
+
+theorem totalSize_nonpos_limit (lim : Option Limit) (h : totalSizeOf lim ≤ 0) (h0 : effLimitOf lim ≠ some 0) :
+    effLimitOf lim = none := by
+  unfold totalSizeOf at *
+  cases lim with
+  | none => rfl
+  | some l =>
+    cases hl : l.limit with
+    | none => simp [effLimitOf, Limit.effLimit, hl]
+    | some n =>
+      simp [hl] at h
+      simp [effLimitOf, Limit.effLimit, hl] at h0 ⊢
+      omega
+
+theorem clampBatch_le (lim : Option Limit) (b : Int) : clampBatch lim b ≤ b := by
+  unfold clampBatch; split <;> omega
+
+theorem clampBatch_pos (lim : Option Limit) (b : Int) (hb : 0 < b) : 0 < clampBatch lim b := by
+  unfold clampBatch; split <;> omega
+
+theorem clampBatch_le_total (lim : Option Limit) (b : Int) (hT : 0 < totalSizeOf lim) :
+    clampBatch lim b ≤ totalSizeOf lim := by
+  unfold clampBatch
+  have : lim.isSome = true := by
+    cases lim with
+    | none => simp [totalSizeOf] at hT
+    | some _ => rfl
+  split <;> simp_all <;> omega
+
+/-- rows `Find` would return before LIMIT is applied: the matching rows after the user's OFFSET -/
+def afterOffset (M : List Nat) (lim : Option Limit) : List Nat :=
+  match effOffsetOf lim with
+  | some o => M.drop o.toNat
+  | none => M
+
+theorem findInBatches_spec (M : List Nat) (lim : Option Limit) (batch : Int) (fuel : Nat)
+    (hs : M.Pairwise (· < ·)) (hp : ∀ k ∈ M, 0 < k) (hb : 0 < batch)
+    (h0 : effLimitOf lim ≠ some 0) (hf : M.length + 1 ≤ fuel) :
+    (findInBatches M lim batch fuel).batches.flatten = findAll M lim
+    ∧ (∀ b ∈ (findInBatches M lim batch fuel).batches, b ≠ [] ∧ (b.length : Int) ≤ batch)
+    ∧ (findInBatches M lim batch fuel).outOfFuel = false
+    ∧ (findInBatches M lim batch fuel).pkRequired = false
+    ∧ (findInBatches M lim batch fuel).rowsAffected = ((findAll M lim).length : Int) := by
+  have inv : Inv M (effOffsetOf lim) (totalSizeOf lim) (clampBatch lim batch)
+      { batchSize := clampBatch lim batch } (afterOffset M lim) := by
+    refine ⟨clampBatch_pos _ _ hb, Int.le_refl _, ?_, ?_, ?_⟩
+    · intro l
+      simp only [findQ, afterOffset, if_true]
+      cases effOffsetOf lim <;> rfl
+    · unfold afterOffset
+      cases effOffsetOf lim with
+      | none => exact ⟨[], rfl⟩
+      | some o => exact ⟨M.take o.toNat, (List.take_append_drop _ _).symm⟩
+    · by_cases hT : totalSizeOf lim ≤ 0
+      · exact Or.inl ⟨hT, rfl⟩
+      · refine Or.inr (Or.inl ⟨by omega, rfl, by simp, ?_⟩)
+        have := clampBatch_le_total lim batch (by omega)
+        simpa using this
+  have hlen : (afterOffset M lim).length + 1 ≤ fuel := by
+    unfold afterOffset
+    cases effOffsetOf lim with
+    | none => exact hf
+    | some o => simp only [List.length_drop]; omega
+  obtain ⟨bl, h1, h2, h3, h4, h5, h6⟩ :=
+    batchLoop_spec M (effOffsetOf lim) (totalSizeOf lim) (clampBatch lim batch) hs hp fuel
+      { batchSize := clampBatch lim batch } (afterOffset M lim) [] [] inv hlen
+  have hfind : (afterOffset M lim).take (budget (totalSizeOf lim) { batchSize := clampBatch lim batch }
+      (afterOffset M lim)) = findAll M lim := by
+    unfold budget findAll
+    by_cases hT : totalSizeOf lim ≤ 0
+    · rw [if_pos hT, totalSize_nonpos_limit lim hT h0, List.take_of_length_le (Nat.le_refl _)]
+      simp only [findQ, afterOffset]
+      cases effOffsetOf lim <;> rfl
+    · rw [if_neg hT, totalSize_pos_limit lim (by omega)]
+      simp only [findQ, afterOffset, Int.sub_zero]
+      cases effOffsetOf lim <;> rfl
+  have hbat : (findInBatches M lim batch fuel).batches = bl := by
+    simpa [findInBatches, findInBatchesQ] using h1
+  refine ⟨?_, ?_, h4, h5, ?_⟩
+  · rw [hbat, h2, hfind]
+  · intro b hbm
+    rw [hbat] at hbm
+    have := h3 b hbm
+    exact ⟨this.1, Int.le_trans this.2 (clampBatch_le lim batch)⟩
+  · have : (findInBatches M lim batch fuel).rowsAffected = 0 + (bl.flatten.length : Int) := h6
+    rw [this, h2, hfind]; simp
+
+theorem findAll_sublist (M : List Nat) (lim : Option Limit) : (findAll M lim).Sublist M := by
+  unfold findAll findQ
+  cases effOffsetOf lim <;> cases effLimitOf lim <;> simp only
+  · exact List.Sublist.refl _
+  · exact List.take_sublist _ _
+  · exact List.drop_sublist _ _
+  · exact (List.take_sublist _ _).trans (List.drop_sublist _ _)
+
+/-! ### WHERE runs, ordering: when `queryW` degenerates to `findQ` on the matching rows -/
+
+theorem evalRunsAux_noOr (k : Nat) (us : List WUnit) (c : WUnit) (hc : c.isOr = false)
+    (h : ∀ u ∈ us, u.isOr = false) (cur : Bool) :
+    evalRunsAux k cur (us ++ [c]) = (evalRunsAux k cur us && c.sat k) := by
+  induction us generalizing cur with
+  | nil => simp [evalRunsAux, hc]
+  | cons u us ih =>
+    have hu : u.isOr = false := h u (by simp)
+    simp only [List.cons_append, evalRunsAux, hu]
+    exact ih (fun v hv => h v (by simp [hv])) _
+
+theorem whereSwap_noOr (us : List WUnit) (h : ∀ u ∈ us, u.isOr = false) : whereSwap us = us := by
+  cases us with
+  | nil => rfl
+  | cons u us => simp [whereSwap, h u (by simp)]
+
+/-- without an `Or` member the cursor is a conjunct of the whole WHERE -/
+theorem whereSat_cursor_noOr (us : List WUnit) (h : ∀ u ∈ us, u.isOr = false) (g k : Nat) :
+    whereSat us (some g) k = (whereSat us none k && decide (g < k)) := by
+  unfold whereSat
+  have h' : ∀ u ∈ us ++ [cursorUnit g], u.isOr = false := by
+    intro u hu
+    rcases List.mem_append.mp hu with hu | hu
+    · exact h u hu
+    · simp at hu; subst hu; rfl
+  rw [whereSwap_noOr _ h', whereSwap_noOr _ h]
+  cases us with
+  | nil => simp [evalRuns, evalRunsAux, cursorUnit]
+  | cons u us =>
+    simp only [List.cons_append, evalRuns]
+    rw [evalRunsAux_noOr k us (cursorUnit g) rfl (fun v hv => h v (by simp [hv]))]
+    rfl
+
+theorem insertBy_head (le : Nat → Nat → Bool) (x : Nat) (l : List Nat)
+    (h : ∀ y, l.head? = some y → le x y = true) : insertBy le x l = x :: l := by
+  cases l with
+  | nil => rfl
+  | cons y l => simp [insertBy, h y rfl]
+
+/-- a list that is already in order is left alone by the sort -/
+theorem isort_sorted (le : Nat → Nat → Bool) (l : List Nat) (h : l.Pairwise (fun a b => le a b = true)) :
+    isort le l = l := by
+  induction l with
+  | nil => rfl
+  | cons x l ih =>
+    rw [List.pairwise_cons] at h
+    simp only [isort, ih h.2]
+    apply insertBy_head
+    intro y hy
+    cases l with
+    | nil => simp at hy
+    | cons z l => simp at hy; subst hy; exact h.1 _ (by simp)
+
+/-- the user's ordering (with the key as last column) agrees with the key order on the table -/
+def KeyMonotone (tbl : List Nat) (ord : List OrdCol) : Prop :=
+  tbl.Pairwise (fun a b => ordLe (ord ++ [pkAsc]) a b = true)
+
+theorem keyMonotone_nil (tbl : List Nat) (hs : tbl.Pairwise (· < ·)) : KeyMonotone tbl [] := by
+  unfold KeyMonotone
+  refine hs.imp ?_
+  intro a b hab
+  simp [ordLe, pkAsc]
+  omega
+
+theorem queryW_eq_findQ (tbl : List Nat) (us : List WUnit) (ord : List OrdCol)
+    (hOr : ∀ u ∈ us, u.isOr = false) (hOrd : KeyMonotone tbl ord)
+    (lim off : Option Int) (gt : Option Nat) :
+    queryW tbl us (ord ++ [pkAsc]) lim off gt = findQ (matchingW tbl us) lim off gt := by
+  have hfilt : tbl.filter (whereSat us gt) =
+      (match gt with | none => matchingW tbl us | some g => (matchingW tbl us).filter (fun k => decide (g < k))) := by
+    cases gt with
+    | none => rfl
+    | some g =>
+      simp only [matchingW, List.filter_filter]
+      congr 1
+      funext k
+      rw [whereSat_cursor_noOr us hOr g k, Bool.and_comm]
+  have hsub : (tbl.filter (whereSat us gt)).Sublist tbl := List.filter_sublist
+  have hsorted : isort (ordLe (ord ++ [pkAsc])) (tbl.filter (whereSat us gt)) = tbl.filter (whereSat us gt) :=
+    isort_sorted _ _ (List.Pairwise.sublist hsub hOrd)
+  unfold queryW
+  rw [hsorted, hfilt]
+  unfold findQ window
+  cases gt <;> rfl
+
+theorem findInBatchesW_eq (tbl : List Nat) (us : List WUnit) (ord : List OrdCol)
+    (hOr : ∀ u ∈ us, u.isOr = false) (hOrd : KeyMonotone tbl ord) (lim : Option Limit) (batch : Int) (fuel : Nat) :
+    findInBatchesW tbl us ord lim batch fuel = findInBatches (matchingW tbl us) lim batch fuel := by
+  unfold findInBatchesW findInBatches
+  congr 1
+  funext l o g
+  exact queryW_eq_findQ tbl us ord hOr hOrd (some l) o g
+
+theorem findAllW_eq (tbl : List Nat) (us : List WUnit) (ord : List OrdCol)
+    (hOr : ∀ u ∈ us, u.isOr = false) (hOrd : KeyMonotone tbl ord) (lim : Option Limit) :
+    findAllW tbl us ord lim = findAll (matchingW tbl us) lim :=
+  queryW_eq_findQ tbl us ord hOr hOrd _ _ none
+
+end Gorm
